@@ -75,7 +75,7 @@ contract("NoiseSettings.get_default_noise_settings", params=dict(self=REF("Noise
                   "and result.single_qubit_gate_error == self.default_single_qubit_gate_error"])
 
 PARAMS_OF = ("ite(dict_has(self.individual_noise, qubit_id), 0, 1)")
-contract("NoiseSettings.get_noise_settings", params=dict(self=REF("NoiseSettings"), qubit_id=REF("IQubitID")), returns=REF("QubitNoiseModelParameters"),
+contract("NoiseSettings.get_noise_settings", params=dict(self=REF("NoiseSettings"), qubit_id=OPT(REF("IQubitID"))), returns=REF("QubitNoiseModelParameters"),
          pure=True, props=P, fresh_result=False,
          ensures=["implies(dict_has(self.individual_noise, qubit_id), result is dict_get(self.individual_noise, qubit_id))",
                   "implies(not dict_has(self.individual_noise, qubit_id), result.t1 == self.default_t1 and result.t2 == self.default_t2 and "
